@@ -110,11 +110,12 @@ theorem interval_change_triggers (σ : PollState) (i : Nat) (m : Mod) (hm : σ.m
 time passing; and a wait that is in progress when another thread changes an interval ends at that very moment,
 with the change applied. -/
 theorem interval_change_wakes (env : Env) (σ : PollState) (timeout : Nat) :
-    (σ.trig = true → (doWait env σ timeout).clock = σ.clock) ∧
+    (σ.trig = true → (doWait env σ timeout).clock = σ.clock ∧
+      (doWait env σ timeout).mods = (applyExts (env.gap σ.nWait) σ).mods) ∧
     (∀ d e rest, σ.trig = false → env.wake σ.nWait = (d, [e]) :: rest → d ≤ timeout →
       extTriggers σ.mods e = true →
       (waitEvent env σ timeout).clock = σ.clock + d ∧ (waitEvent env σ timeout).mods = applyExtMods σ.mods e) :=
-  ⟨fun h => (doWait_trig env σ timeout h).1,
+  ⟨fun h => doWait_trig env σ timeout h,
    fun d e rest ht hw hd he => waitEvent_interrupted env σ timeout d e rest ht hw hd he⟩
 
 /-- **interval_change_next_wakeup (3).**  Every wait of the loop is computed from the intervals in force at that
@@ -137,6 +138,109 @@ theorem interval_change_next_wakeup (c : Consts) (env : Env) (σ : PollState) (i
   refine ⟨rfl, ?_, ?_⟩
   · dsimp only; omega
   · dsimp only; omega
+
+/-- **interval_change_next_wakeup (4): no lost wake-up.**  Whenever another thread acts on the poll bookkeeping
+around a wait of the loop — before the wait is entered (first batch at distance 0), while it lasts (a batch at distance
+`d`), or in the window between the return of `wait` and the `clear` that follows it (`env.gap`) — the state the turn
+ends in contains that action: nothing the `clear` wipes out is still needed.  Precisely, for every environment, state
+and time-out: the poll bookkeeping after `wait; clear` is what the actions of the window make of what the wait left, the
+clock is the one the wait ended with (so the window costs no time), the event is clear, and the *next* turn — which,
+by (3), computes its wake-up from the values of the state it starts in — therefore ends no later than
+`last_main + interval` of the bookkeeping *including* the window's actions.  (Had the `clear` come before the `wait`,
+an action between the computation of `wait_time` and the `clear` would be slept over for the old interval.) -/
+theorem interval_change_not_lost (c : Consts) (env : Env) (σ : PollState) (timeout : Nat) :
+    (doWait env σ timeout).mods = (applyExts (env.gap σ.nWait) (waitEvent env σ timeout)).mods ∧
+    (doWait env σ timeout).clock = (waitEvent env σ timeout).clock ∧
+    (doWait env σ timeout).trig = false ∧
+    ∀ (i : Nat) (m : Mod), (doWait env σ timeout).mods[i]? = some m → m.enabled = true →
+      (readClock env (doWait env σ timeout)).clock < wakeAt c (readClock env (doWait env σ timeout)).clock (doWait env σ timeout).mods ∧
+        (doWait env σ timeout).toPoll.isNone = true →
+      (turn c env (doWait env σ timeout)).σ.clock ≤ m.lastMain + m.interval := by
+  refine ⟨doWait_mods env σ timeout, doWait_clock env σ timeout, rfl, ?_⟩
+  intro i m hm he hw
+  exact (interval_change_next_wakeup c env (doWait env σ timeout) i m hm he hw).2.1
+
+/-- a `setFastPoll` / `pollinterval` change falling into the window between `wait` and `clear` is installed when the
+turn ends (with (4): the next wake-up is computed from it) -/
+theorem interval_change_in_window (env : Env) (σ : PollState) (timeout : Nat) (i : Nat) (m : Mod)
+    (hm : (waitEvent env σ timeout).mods[i]? = some m) (flag : Bool) (fastI : Nat)
+    (hg : env.gap σ.nWait = [.setFastPoll i flag fastI]) :
+    (doWait env σ timeout).mods[i]? =
+      some { m with fast := flag, interval := if flag then fastI else m.pollinterval } := by
+  rw [doWait_mods, hg, applyExts_single]
+  simp [applyExt, applyExtMods, updAt_getElem?, hm, extSetFastPoll]
+
+/-! ## the interval the poller uses is the one the module was told -/
+
+/-- the model's `PollInfo` of module `m` agrees with what the module was told (`s`): same poll interval, same
+fast-polling switch, and `PollInfo.interval` is the interval in force -/
+def Tracks (m : Mod) (s : IvState) : Prop :=
+  m.pollinterval = s.pollinterval ∧ m.fast = s.fast ∧ m.interval = s.inForce
+
+/-- the command module `i` receives through an action of another thread at time `t` (triggers are no commands) -/
+def cmdOf (i t : Nat) : Ext → Option Cmd
+  | .updateInterval m v => if m = i then some (.setInterval t v) else none
+  | .setFastPoll m flag v => if m = i then some (.setFast t flag v) else none
+  | _ => none
+
+def stepOpt (s : IvState) : Option Cmd → IvState
+  | some c => cmdStep s c
+  | none => s
+
+/-- **interval_follows_commands.**  For every sequence of actions of other threads on the poll bookkeeping —
+`pollinterval` changes with or without fast polling being on, fast polling switched on or off, triggers, reconnect —
+in whatever order and at whatever times: the interval the poll loop computes with (`PollInfo.interval`) stays the
+interval the module was *told* (`Spec.C13.IvState.inForce`: the fast interval while fast polling is on, the module's
+current `pollinterval` otherwise), i.e. the one the monitor's `MainGapBound` holds the implementation to.  In
+particular a `pollinterval` change made while fast polling is on is in force as soon as fast polling is switched off. -/
+theorem interval_follows_commands (i : Nat) (es : List (Nat × Ext)) : ∀ (mods : List Mod) (m : Mod) (s : IvState),
+    mods[i]? = some m → Tracks m s →
+    ∃ m', (es.foldl (fun ms te => applyExtMods ms te.2) mods)[i]? = some m' ∧
+      Tracks m' (es.foldl (fun s te => stepOpt s (cmdOf i te.1 te.2)) s) ∧ m'.enabled = m.enabled := by
+  induction es with
+  | nil => intro mods m s hm hc; exact ⟨m, hm, hc, rfl⟩
+  | cons te es ih =>
+    intro mods m s hm hc
+    obtain ⟨t, e⟩ := te
+    have step : ∃ m1, (applyExtMods mods e)[i]? = some m1 ∧ Tracks m1 (stepOpt s (cmdOf i t e)) ∧
+        m1.enabled = m.enabled := by
+      obtain ⟨hp, hf, hi⟩ := hc
+      unfold IvState.inForce at hi
+      cases e with
+      | updateInterval j v =>
+        by_cases hj : j = i
+        · subst hj
+          refine ⟨extUpdateInterval v m, by simp [applyExtMods, updAt_getElem?, hm], ?_, ?_⟩
+          · unfold Tracks IvState.inForce extUpdateInterval
+            cases hfm : m.fast <;> simp [hfm, cmdOf, stepOpt, cmdStep, ← hf] at hi ⊢
+            exact hi
+          · unfold extUpdateInterval; split <;> rfl
+        · exact ⟨m, by simp [applyExtMods, updAt_getElem?, hm, Ne.symm hj], by simpa [cmdOf, hj, stepOpt] using ⟨hp, hf, hi⟩, rfl⟩
+      | setFastPoll j flag v =>
+        by_cases hj : j = i
+        · subst hj
+          refine ⟨extSetFastPoll flag v m, by simp [applyExtMods, updAt_getElem?, hm], ?_, rfl⟩
+          unfold Tracks IvState.inForce extSetFastPoll
+          cases flag <;> simp [cmdOf, stepOpt, cmdStep, hp]
+        · exact ⟨m, by simp [applyExtMods, updAt_getElem?, hm, Ne.symm hj], by simpa [cmdOf, hj, stepOpt] using ⟨hp, hf, hi⟩, rfl⟩
+      | trigger j imm =>
+        by_cases hj : j = i
+        · subst hj
+          refine ⟨extTrigger imm m, by simp [applyExtMods, updAt_getElem?, hm], ?_, ?_⟩
+          · unfold extTrigger; split <;> exact ⟨hp, hf, hi⟩
+          · unfold extTrigger; split <;> rfl
+        · exact ⟨m, by simp [applyExtMods, updAt_getElem?, hm, Ne.symm hj], ⟨hp, hf, hi⟩, rfl⟩
+      | triggerAll =>
+        refine ⟨extTriggerAll m, by simp [applyExtMods, hm], ?_, ?_⟩
+        · unfold extTriggerAll; split <;> exact ⟨hp, hf, hi⟩
+        · unfold extTriggerAll; split <;> rfl
+    obtain ⟨m1, h1, c1, e1⟩ := step
+    obtain ⟨m', h', c', e'⟩ := ih (applyExtMods mods e) m1 _ h1 c1
+    exact ⟨m', h', c', by rw [e', e1]⟩
+
+/-- the entries the monitor derives from the commands (`ModInfo.intervals`) are the intervals in force after each command -/
+theorem intervals_are_in_force (s : IvState) (c : Cmd) (cs : List Cmd) :
+    intervalsFrom s (c :: cs) = (c.time, (cmdStep s c).inForce) :: intervalsFrom (cmdStep s c) cs := rfl
 
 /-! ## bounded staleness of the main polls -/
 
@@ -345,6 +449,33 @@ example : (run exConsts exEnv 40 exState []).σ.clock ≤
 
 example : slowBound (exMod 25 60 [2]).slow (allEntries 0 exState.mods).length exState.mods.length 3 1 = 220 ∧
     1000 < (run exConsts exEnv 40 exState []).σ.refreshed 1 2 := by decide +kernel
+
+/-- an environment in which another thread switches fast polling (interval 2) on for module 0 in the window between
+the return of the first wait of the loop and the `clear` that follows it -/
+def exEnvGap : Env := { exEnv with gap := fun k => if k = 0 then [.setFastPoll 0 true 2] else [] }
+
+/-- `interval_change_not_lost` / `interval_change_in_window` on it: the wait (time-out 5, nothing else happens) ends
+at 1005, the action of the window is installed although its trigger is wiped out, the clock has not moved, and the
+next turn — module 0 was last polled at 1000 — is over by `1000 + 2`, not by `1000 + 10` -/
+example : ((doWait exEnvGap { exState with mods := exState.mods.map (fun m => { m with lastMain := 1000, lastSlow := 1000 }) } 5).mods[0]?.map (·.interval)) = some 2 ∧
+    (doWait exEnvGap exState 5).clock = 1005 ∧ (doWait exEnvGap exState 5).trig = false := by decide
+
+example : (doWait exEnvGap exState 5).mods[0]? = some { exMod 10 40 [0, 1] with fast := true, interval := 2 } :=
+  interval_change_in_window exEnvGap exState 5 0 (exMod 10 40 [0, 1]) rfl true 2 rfl
+
+example : (doWait exEnvGap exState 5).mods = (applyExts (exEnvGap.gap 0) (waitEvent exEnvGap exState 5)).mods :=
+  (interval_change_not_lost exConsts exEnvGap exState 5).1
+
+/-- `interval_follows_commands` on the sequence "fast polling on (interval 2) at 5, `pollinterval := 7` at 6 (while
+fast), reconnect at 7, fast polling off at 8": the loop's interval ends up as 7 — the value set *during* fast
+polling — and the intervals the monitor derives from the same commands are 2, 2, 7 -/
+example : ∃ m', ([(5, Ext.setFastPoll 0 true 2), (6, .updateInterval 0 7), (7, .triggerAll), (8, .setFastPoll 0 false 3)].foldl
+      (fun ms te => applyExtMods ms te.2) exState.mods)[0]? = some m' ∧
+    Tracks m' ⟨7, false, 3⟩ ∧ m'.enabled = true :=
+  interval_follows_commands 0 _ exState.mods (exMod 10 40 [0, 1]) ⟨10, false, 0⟩ rfl ⟨rfl, rfl, rfl⟩
+
+example : (ModInfo.intervals ⟨true, 40, [0, 1], 10, [.setFast 5 true 2, .setInterval 6 7, .setFast 8 false 3]⟩) =
+    [(0, 10), (5, 2), (6, 2), (8, 7)] := by decide
 
 /-- the generated limits exclude `slowinterval = 0` (hypothesis of the refresh bound) -/
 example : 0 < Generated.C13.slowMin := by decide
